@@ -1040,3 +1040,421 @@ theorem runP_lowest (v : Variant) (cfg : Cfg) (src : Bytes) : ∀ (ms : List Mat
 
 
 end TsVerif.C18
+
+/-! ## Unconditional facts about the loop; the no-late-arrival condition -/
+namespace TsVerif.C18
+
+
+theorem run_eq_flatten (v : Variant) (cfg : Cfg) (src : Bytes) : ∀ (ms : List Mat) (st : St),
+    run v cfg src ms st = (runB v cfg src ms st).flatten := by
+  intro ms
+  induction ms with
+  | nil => intro st; simp [run, runB]
+  | cons m ms ih => intro st; simp only [run, runB, List.flatten_cons, ih]
+
+/-- Unconditional: every batch is strictly sorted (for ANY match sequence). -/
+theorem runB_sorted (v : Variant) (cfg : Cfg) (src : Bytes) : ∀ (ms : List Mat) (st : St),
+    QSorted st.queue → ∀ b ∈ runB v cfg src ms st, b.Pairwise TagLt := by
+  intro ms
+  induction ms with
+  | nil =>
+    intro st hs b hb
+    simp only [runB, List.mem_singleton] at hb
+    subst hb
+    exact (qsorted_map _ hs).sublist (drain_sublist _ _ _)
+  | cons m ms ih =>
+    intro st hs b hb
+    obtain ⟨pre, h1, h2, _⟩ := flush_spec st.queue.length st.queue
+    simp only [runB] at hb
+    generalize hfr : flushReady st.queue.length st.queue = fr at h1 h2 hb
+    obtain ⟨out, q'⟩ := fr
+    simp only at h1 h2 hb
+    unfold QSorted at hs
+    rw [h1, List.pairwise_append] at hs
+    obtain ⟨hpre, hq', _⟩ := hs
+    rcases List.mem_cons.mp hb with rfl | hb
+    · exact (qsorted_map pre hpre).sublist h2
+    · refine ih _ ?_ b hb
+      rw [processMatch_queue']
+      cases inserted v cfg src m { st with queue := q' } with
+      | none => exact hq'
+      | some a => exact qInsert_sorted _ _ _ hq'
+
+/-- Unconditional: every emitted entry is one of the inserted entries (or was queued initially). -/
+theorem runP_mem (v : Variant) (cfg : Cfg) (src : Bytes) : ∀ (ms : List Mat) (st : St),
+    ∀ e ∈ runP v cfg src ms st, e ∈ st.queue ∨ e ∈ arrivals v cfg src ms st := by
+  intro ms
+  induction ms with
+  | nil =>
+    intro st e he
+    exact Or.inl ((drainP_sublist _ _ _).subset he)
+  | cons m ms ih =>
+    intro st e he
+    obtain ⟨pre, h1, h2, _⟩ := flushP_spec st.queue.length st.queue
+    simp only [runP] at he
+    simp only [arrivals]
+    generalize hfr : flushReadyP st.queue.length st.queue = fr at h1 h2 he
+    obtain ⟨out, q'⟩ := fr
+    simp only at h1 h2 he ⊢
+    rcases List.mem_append.mp he with he | he
+    · exact Or.inl (by rw [h1]; exact List.mem_append_left _ (h2.subset he))
+    · rcases ih _ e he with hq | ha
+      · rw [processMatch_queue'] at hq
+        cases hi : inserted v cfg src m { st with queue := q' } with
+        | none => rw [hi] at hq; exact Or.inl (by rw [h1]; exact List.mem_append_right _ hq)
+        | some a =>
+          rw [hi] at hq
+          rcases mem_qInsert hq with hq | hq
+          · exact Or.inl (by rw [h1]; exact List.mem_append_right _ hq)
+          · exact Or.inr (List.mem_append_left _ (by simp [hq]))
+      · exact Or.inr (List.mem_append_right _ ha)
+
+
+
+theorem bLt_trans {b : Option (Nat × Nat)} {k k' : Nat × Nat} (h1 : bLt b k = true) (h2 : keyLt k k' = true) :
+    bLt b k' = true := by
+  cases b with
+  | none => rfl
+  | some b => exact keyLt_trans h1 h2
+
+theorem sorted_le_last {l : Queue} (h : QSorted l) {a z : Tag × Nat} (ha : a ∈ l) (hz : l.getLast? = some z) :
+    a = z ∨ KeyLt a z := by
+  induction l with
+  | nil => simp at ha
+  | cons hd rest ih =>
+    unfold QSorted at h ih
+    rw [List.pairwise_cons] at h
+    cases rest with
+    | nil =>
+      simp at hz ha
+      left; rw [ha, hz]
+    | cons r rs =>
+      have hz' : (r :: rs).getLast? = some z := by simpa [List.getLast?_cons_cons] using hz
+      rcases List.mem_cons.mp ha with rfl | ha
+      · right; exact h.1 z (List.mem_of_getLast? hz')
+      · exact ih h.2 ha hz'
+
+theorem take_pre {α} (pre q' : List α) : (pre ++ q').take ((pre ++ q').length - q'.length) = pre := by
+  simp
+
+/-- Sortedness of the whole emission under the semantic condition "no late arrival". -/
+theorem run_sorted_noLate (v : Variant) (cfg : Cfg) (src : Bytes) : ∀ (ms : List Mat) (st : St) (bound : Option (Nat × Nat)),
+    QSorted st.queue → (∀ y ∈ st.queue, bLt bound (key y.1) = true) →
+    noLate v cfg src bound ms st = true →
+    (run v cfg src ms st).Pairwise TagLt ∧ ∀ x ∈ run v cfg src ms st, bLt bound (key x) = true := by
+  intro ms
+  induction ms with
+  | nil =>
+    intro st bound hs hb _
+    simp only [run]
+    have hsub := drain_sublist v.drainSkips st.queue.length st.queue
+    refine ⟨(qsorted_map _ hs).sublist hsub, fun x hx => ?_⟩
+    have := hsub.subset hx
+    simp only [List.mem_map] at this
+    obtain ⟨y, hy, rfl⟩ := this
+    exact hb y hy
+  | cons m ms ih =>
+    intro st bound hs hb hn
+    obtain ⟨pre, h1, _, _⟩ := flushP_spec st.queue.length st.queue
+    simp only [run, flushReady_eq_P]
+    simp only [noLate, Bool.and_eq_true] at hn
+    generalize hfr : flushReadyP st.queue.length st.queue = fr at h1 hn
+    obtain ⟨outP, q'⟩ := fr
+    simp only at h1 hn ⊢
+    obtain ⟨pre', h1', h2', _⟩ := flushP_spec st.queue.length st.queue
+    rw [hfr] at h1' h2'
+    simp only at h1' h2'
+    have hpp : pre' = pre := List.append_cancel_right (by rw [← h1, ← h1'])
+    subst hpp
+    have htake : st.queue.take (st.queue.length - q'.length) = pre' := by
+      rw [h1]; exact take_pre pre' q'
+    rw [htake] at hn
+    have hs0 := hs
+    unfold QSorted at hs
+    rw [h1, List.pairwise_append] at hs
+    obtain ⟨hpre, hq', hcross⟩ := hs
+    generalize hb' : newBound pre' bound = bound' at hn
+    unfold newBound at hb'
+    -- bound' dominates bound and every popped key
+    have hbpre : ∀ p ∈ pre', ∀ k, bLt bound' k = true → keyLt (key p.1) k = true := by
+      intro p hp k hk
+      cases hl : pre'.getLast? with
+      | none => simp [List.getLast?_eq_none_iff] at hl; subst hl; simp at hp
+      | some z =>
+        rw [hl] at hb'; subst hb'
+        rcases sorted_le_last hpre hp hl with rfl | hlt
+        · exact hk
+        · exact keyLt_trans hlt hk
+    have hbb : ∀ k, bLt bound' k = true → bLt bound k = true := by
+      intro k hk
+      cases hl : pre'.getLast? with
+      | none => rw [hl] at hb'; subst hb'; exact hk
+      | some z =>
+        rw [hl] at hb'; subst hb'
+        have hz : z ∈ st.queue := by rw [h1]; exact List.mem_append_left _ (List.mem_of_getLast? hl)
+        exact bLt_trans (hb z hz) hk
+    have hbq' : ∀ y ∈ q', bLt bound' (key y.1) = true := by
+      intro y hy
+      cases hl : pre'.getLast? with
+      | none => rw [hl] at hb'; subst hb'; exact hb y (by rw [h1]; exact List.mem_append_right _ hy)
+      | some z =>
+        rw [hl] at hb'; subst hb'
+        exact hcross z (List.mem_of_getLast? hl) y hy
+    generalize hst' : processMatch v cfg src m { st with queue := q' } = st' at hn
+    have hq := processMatch_queue' v cfg src m { st with queue := q' }
+    rw [hst'] at hq
+    have hsq : QSorted st'.queue ∧ ∀ y ∈ st'.queue, bLt bound' (key y.1) = true := by
+      rw [hq]
+      cases hi : inserted v cfg src m { st with queue := q' } with
+      | none => exact ⟨hq', hbq'⟩
+      | some a =>
+        rw [hi] at hn
+        refine ⟨qInsert_sorted _ _ _ hq', fun y hy => ?_⟩
+        rcases mem_qInsert hy with hy | hy
+        · exact hbq' y hy
+        · rw [hy]; simpa using hn.1
+    obtain ⟨ihs, ihb⟩ := ih st' bound' hsq.1 hsq.2 hn.2
+    refine ⟨?_, ?_⟩
+    · rw [List.pairwise_append]
+      refine ⟨(qsorted_map pre' hpre).sublist (h2'.map _), ihs, ?_⟩
+      intro a ha b hb2
+      have := (h2'.map Prod.fst).subset ha
+      simp only [List.mem_map] at this
+      obtain ⟨p, hp, rfl⟩ := this
+      exact hbpre p hp _ (ihb b hb2)
+    · intro x hx
+      rcases List.mem_append.mp hx with hx | hx
+      · have := (h2'.map Prod.fst).subset hx
+        simp only [List.mem_map] at this
+        obtain ⟨p, hp, rfl⟩ := this
+        exact hb p (by rw [h1]; exact List.mem_append_left _ hp)
+      · exact hbb _ (ihb x hx)
+
+
+
+theorem noLate_of_arrival (v : Variant) (cfg : Cfg) (src : Bytes) : ∀ (ms : List Mat) (st : St) (bound : Option (Nat × Nat)),
+    QSorted st.queue →
+    (∀ y ∈ st.queue, ∀ r ∈ names cfg ms, y.1.name.s ≤ r.e) →
+    (names cfg ms).Pairwise (fun a b => a.s ≤ b.e) →
+    (∀ b, bound = some b → ∀ r ∈ names cfg ms, b.1 < r.e) →
+    noLate v cfg src bound ms st = true := by
+  intro ms
+  induction ms with
+  | nil => intro st bound _ _ _ _; rfl
+  | cons m ms ih =>
+    intro st bound hs hc hp hbd
+    obtain ⟨pre, h1, _, h3⟩ := flushP_spec st.queue.length st.queue
+    simp only [noLate, Bool.and_eq_true]
+    generalize hfr : flushReadyP st.queue.length st.queue = fr at h1
+    obtain ⟨outP, q'⟩ := fr
+    simp only at h1 ⊢
+    have htake : st.queue.take (st.queue.length - q'.length) = pre := by
+      rw [h1]; simp
+    rw [htake]
+    unfold QSorted at hs
+    rw [h1, List.pairwise_append] at hs
+    obtain ⟨hpre, hq', hcross⟩ := hs
+    have hsubq : ∀ y ∈ q', y ∈ st.queue := fun y hy => by rw [h1]; exact List.mem_append_right _ hy
+    have hnames : ∀ r ∈ names cfg ms, r ∈ names cfg (m :: ms) := by
+      intro r hr
+      simp only [names, List.filterMap_cons]
+      split
+      · exact hr
+      · exact List.mem_cons_of_mem _ hr
+    have hp' : (names cfg ms).Pairwise (fun a b => a.s ≤ b.e) := by
+      simp only [names, List.filterMap_cons] at hp
+      split at hp
+      · exact hp
+      · exact (List.pairwise_cons.mp hp).2
+    have hlow : ∀ p ∈ pre, ∀ r ∈ names cfg (m :: ms), p.1.name.e < r.e := by
+      intro p hp r hr
+      obtain ⟨y0, hy0, hlt⟩ := h3 p hp
+      have := hc y0 hy0 r hr
+      omega
+    have hbd' : ∀ b, newBound pre bound = some b → ∀ r ∈ names cfg (m :: ms), b.1 < r.e := by
+      intro b hb r hr
+      unfold newBound at hb
+      cases hl : pre.getLast? with
+      | none => rw [hl] at hb; exact hbd b hb r hr
+      | some z =>
+        rw [hl] at hb
+        simp only [Option.some.injEq] at hb
+        rw [← hb]
+        exact hlow z (List.mem_of_getLast? hl) r hr
+    have hins : ∀ a, inserted v cfg src m { st with queue := q' } = some a →
+        a.1.name ∈ names cfg (m :: ms) ∧ (∀ r' ∈ names cfg ms, a.1.name.s ≤ r'.e) := by
+      intro a ha
+      have hn := (inserted_name ha).1
+      simp only [names, List.filterMap_cons, hn] at hp ⊢
+      exact ⟨List.mem_cons_self, (List.pairwise_cons.mp hp).1⟩
+    refine ⟨?_, ?_⟩
+    · cases hi : inserted v cfg src m { st with queue := q' } with
+      | none => rfl
+      | some a =>
+        simp only
+        cases hb : newBound pre bound with
+        | none => rfl
+        | some b =>
+          have := hbd' b hb _ (hins a hi).1
+          simp [bLt, keyLt, key, this]
+    · apply ih
+      · rw [processMatch_queue']
+        cases inserted v cfg src m { st with queue := q' } with
+        | none => exact hq'
+        | some a => exact qInsert_sorted _ _ _ hq'
+      · intro y hy r hr
+        rw [processMatch_queue'] at hy
+        cases hi : inserted v cfg src m { st with queue := q' } with
+        | none => rw [hi] at hy; exact hc y (hsubq y hy) r (hnames r hr)
+        | some a =>
+          rw [hi] at hy
+          rcases mem_qInsert hy with hy | hy
+          · exact hc y (hsubq y hy) r (hnames r hr)
+          · rw [hy]; exact (hins a hi).2 r hr
+      · exact hp'
+      · intro b hb r hr; exact hbd' b hb r (hnames r hr)
+
+
+end TsVerif.C18
+
+/-! ## Scope recording; the repaired LossyUtf8 -/
+namespace TsVerif.C18
+
+
+/-- `addDef`: the definition goes to the most recently pushed scope that contains it, and nowhere else. -/
+theorem addDef_eq (name : Bytes) (r : R) (scopes : Scopes) :
+    ((∀ s ∈ scopes, s.contains r = false) ∧ addDef name r scopes = scopes) ∨
+    ∃ pre s post, scopes = pre ++ s :: post ∧ (∀ x ∈ pre, x.contains r = false) ∧ s.contains r = true ∧
+      addDef name r scopes = pre ++ { s with defs := s.defs ++ [name] } :: post := by
+  induction scopes with
+  | nil => left; simp [addDef]
+  | cons a rest ih =>
+    by_cases hc : a.contains r = true
+    · right
+      exact ⟨[], a, rest, rfl, by simp, hc, by simp [addDef, hc]⟩
+    · have hc' : a.contains r = false := by simpa using hc
+      rcases ih with ⟨hno, heq⟩ | ⟨pre, s, post, hsp, hpre, hs, heq⟩
+      · left
+        refine ⟨?_, by simp [addDef, hc', heq]⟩
+        intro s hs
+        rcases List.mem_cons.mp hs with rfl | hs
+        · exact hc'
+        · exact hno s hs
+      · right
+        refine ⟨a :: pre, s, post, by rw [hsp]; rfl, ?_, hs, by simp [addDef, hc', heq]⟩
+        intro x hx
+        rcases List.mem_cons.mp hx with rfl | hx
+        · exact hc'
+        · exact hpre x hx
+
+def scopeShape (s : Scope) : R × Bool := (s.range, s.inherits)
+
+theorem addDef_shape (name : Bytes) (r : R) (scopes : Scopes) :
+    (addDef name r scopes).map scopeShape = scopes.map scopeShape := by
+  induction scopes with
+  | nil => rfl
+  | cons a rest ih =>
+    by_cases hc : a.contains r = true
+    · simp [addDef, hc, scopeShape]
+    · simp [addDef, hc, ih]
+
+/-- One capture of a locals-pattern match. -/
+def recordStep (cfg : Cfg) (src : Bytes) (pi : PatInfo) (sc : Scopes) (c : Cap) : Scopes :=
+  if some c.idx == cfg.scopeIdx then { inherits := pi.inherits, range := ⟨c.sb, c.eb⟩, defs := [] } :: sc
+  else if some c.idx == cfg.defIdx then addDef (slice src c.sb c.eb) ⟨c.sb, c.eb⟩ sc
+  else sc
+
+theorem processLocal_eq_foldl (cfg : Cfg) (src : Bytes) (pi : PatInfo) (caps : List Cap) (sc : Scopes) :
+    processLocal cfg src pi caps sc = caps.foldl (recordStep cfg src pi) sc := rfl
+
+/-- Scopes are never dropped, reordered or resized: the old stack's (range, inherits) list is a suffix
+of the new one; the new scopes are exactly the `@local.scope` captures, most recent first. -/
+theorem processLocal_shape (cfg : Cfg) (src : Bytes) (pi : PatInfo) : ∀ (caps : List Cap) (sc : Scopes),
+    (processLocal cfg src pi caps sc).map scopeShape =
+      ((caps.filter (fun c => some c.idx == cfg.scopeIdx)).reverse.map
+          (fun c => ((⟨c.sb, c.eb⟩ : R), pi.inherits))) ++ sc.map scopeShape := by
+  intro caps
+  induction caps with
+  | nil => intro sc; simp [processLocal]
+  | cons c cs ih =>
+    intro sc
+    rw [processLocal_eq_foldl, List.foldl_cons, ← processLocal_eq_foldl, ih]
+    unfold recordStep
+    by_cases h1 : (some c.idx == cfg.scopeIdx) = true
+    · simp [h1, scopeShape, List.filter_cons]
+    · by_cases h2 : (some c.idx == cfg.defIdx) = true
+      · simp [h1, h2, List.filter_cons, addDef_shape]
+      · simp [h1, h2, List.filter_cons]
+
+
+
+/-- `utf16Spec` in terms of one `from_utf8` call. -/
+theorem utf16Spec_scan (b : Bytes) :
+    utf16Spec b = match (scan b).err with
+      | none => (scan b).u16
+      | some (some k) => (scan b).u16 + (1 + utf16Spec (b.drop ((scan b).validUpTo + (k + 1))))
+      | some none => (scan b).u16 + 1 := by
+  fun_induction scan b with
+  | case1 => simp [utf16Spec]
+  | case2 x rest n hs r ih =>
+    have hn := (stepAt_char_append [] hs).2.2
+    rw [utf16Spec]
+    simp only [hs]
+    rw [ih]
+    cases he : (scan (List.drop (n - 1) rest)).err with
+    | none => simp [r, he]
+    | some e =>
+      cases e with
+      | none => simp [r, he]; omega
+      | some k =>
+        simp only [r, he]
+        have : (x :: rest).drop (n + (scan (List.drop (n - 1) rest)).validUpTo + (k + 1)) =
+            (rest.drop (n - 1)).drop ((scan (List.drop (n - 1) rest)).validUpTo + (k + 1)) := by
+          rw [List.drop_drop]
+          have : n + (scan (List.drop (n - 1) rest)).validUpTo + (k + 1) =
+              (n - 1 + ((scan (List.drop (n - 1) rest)).validUpTo + (k + 1))) + 1 := by omega
+          rw [this, List.drop_succ_cons]
+        rw [this]; omega
+  | case3 x rest k hs =>
+    rw [utf16Spec]; simp [hs]
+  | case4 x rest hs =>
+    rw [utf16Spec]; simp [hs]
+
+theorem scan_u16_zero (b : Bytes) (h : (scan b).validUpTo = 0) : (scan b).u16 = 0 := by
+  fun_induction scan b with
+  | case1 => rfl
+  | case2 x rest n hs r ih =>
+    have hn := (stepAt_char_append [] hs).2.2
+    simp at h; omega
+  | case3 x rest k hs => rfl
+  | case4 x rest hs => rfl
+
+theorem lossyF_eq_spec (b : Bytes) (inRepl : Bool) :
+    lossyUnitsF b inRepl = (if inRepl then 1 else 0) + utf16Spec b := by
+  induction b, inRepl using lossyUnitsF.induct with
+  | case1 bytes ih => rw [lossyUnitsF]; simp [ih]
+  | case2 inRepl hr => rw [lossyUnitsF]; simp [hr, utf16Spec]
+  | case3 bytes inRepl hr hne r he =>
+    rw [lossyUnitsF, utf16Spec_scan]; simp only [r] at he; simp [hr, hne, he]
+  | case4 bytes inRepl hr hne r k he hv ih =>
+    rw [lossyUnitsF, utf16Spec_scan bytes]; simp only [r] at he hv ih
+    simp [hr, hne, he, hv, ih]
+  | case5 bytes inRepl hr hne r k he hv ih =>
+    rw [lossyUnitsF, utf16Spec_scan bytes]; simp only [r] at he hv ih
+    have hv0 : (scan bytes).validUpTo = 0 := by omega
+    simp [hr, hne, he, hv0, ih, scan_u16_zero bytes hv0]
+  | case6 bytes inRepl hr hne r he hv ih =>
+    rw [lossyUnitsF, utf16Spec_scan bytes]; simp only [r] at he hv ih
+    have : bytes.drop ((scan bytes).validUpTo + (bytes.length - (scan bytes).validUpTo)) = [] := by
+      apply List.drop_eq_nil_of_le; omega
+    rw [this] at ih
+    simp [hr, hne, he, hv, ih, this, utf16Spec]
+  | case7 bytes inRepl hr hne r he hv ih =>
+    rw [lossyUnitsF, utf16Spec_scan bytes]; simp only [r] at he hv ih
+    have hv0 : (scan bytes).validUpTo = 0 := by omega
+    rw [hv0] at ih
+    simp at ih
+    simp [hr, hne, he, hv0, ih, utf16Spec, scan_u16_zero bytes hv0]
+
+
+end TsVerif.C18
